@@ -17,6 +17,11 @@ CONSTANTS
   MaxOps = 8
   GraphOps = FALSE
   Probe = "none"
+  CarPerPage = 100
+  Reentrant = FALSE
+  FlagFirst = FALSE
+  SplitPoint = FALSE
+  CutAtRisk = FALSE
 INVARIANTS AuditInv AbsInv ClientOk
 PROPERTY Refines
 VIEW View
